@@ -19,7 +19,7 @@ if go test $RACE -vet=off -count=1 -run TestSeededDemo ./$PKG/ >/tmp/eval-$$.log
 rm $WT/$PKG/zz_seeded_demo_test.go
 for c in "$@"; do
   s=$(date +%s)
-  (cd /verif && VERIF_REPO=$WT bin/check $c --tier ${TIER:-quick} > /tmp/eval-$$-$c.out 2>&1); rc=$?
+  (cd ${VDIR:-/verif} && VERIF_REPO=$WT bin/check $c --tier ${TIER:-quick} > /tmp/eval-$$-$c.out 2>&1); rc=$?
   e=$(date +%s)
   echo "check $c rc=$rc $((e-s))s: $(grep -E '^(PASS|FAIL|INFRA)' /tmp/eval-$$-$c.out | tail -1 | cut -c1-150)"
   grep -A1 '^VIOLATION' /tmp/eval-$$-$c.out | grep '^  ' | head -3 | cut -c1-260
